@@ -118,7 +118,15 @@ fn main() {
             let pat = pos.get(1).cloned().unwrap_or_default();
             let s = specs::spec(&c, &tier).unwrap_or_else(|| usage());
             for j in s.jobs.iter().filter(|j| j.program.text().contains(&pat) || j.program.name.contains(&pat)) {
-                println!("{}", serde_json::to_string(&j.program).unwrap());
+                if pos.get(2).map(|x| x == "eval").unwrap_or(false) {
+                    // reference verdict kinds and loom's verdict, side by side
+                    let sc = scm::explore(&j.program, scm::Mode::explore(&j.program), 5_000_000);
+                    std::panic::set_hook(Box::new(|_| {}));
+                    let (sum, _) = subject::run(&j.program, &j.cfg, |_: &subject::IterData| {});
+                    println!("ref_bad={:?} ref_outcomes={} loom={} iters={} :: {}", sc.bad_kinds(), sc.done.len(), sum.verdict.short(), sum.iterations, j.program.text());
+                } else {
+                    println!("{}", serde_json::to_string(&j.program).unwrap());
+                }
             }
         }
         "replay" => {
